@@ -250,7 +250,75 @@ def mk_wrapper(scenario, _replay=None):
     return {"status": "holds", "paths": stats["paths"], "queries": nq, "detail": f"{len(labels)} points, {stats['paths']} orderings of their values", "solver_s": round(time.time() - t0, 2)}
 
 
+# ---------------------------------------------------------------- (c) the hypothesis / model app: the alternate is complete before it is initialised
+def mk_configure_order():
+    """app.evo.model._configure_lf builds the likelihood function of one model of a hypothesis: default rules with bounds, the user's
+    param_rules, optional time-heterogeneity, and finally the `initialise` callback (hypothesis / model_collection pass
+    initialise_from_nested(null) there). Nested initialisation requires the alternate to be FULLY specified when the callback runs -
+    otherwise it is not yet richer than the null, the initialisation is refused and the alternate starts from defaults. The real
+    method runs on a recording stub function (CrossHair; which options are set is symbolic): every user rule and the
+    time-heterogeneity are applied before the callback, and nothing is applied after it."""
+
+    def check(has_rules: bool, time_het: int, has_init: bool) -> bool:
+        """
+        pre: 0 <= time_het <= 2
+        post: _
+        """
+        from cogent3.app import evo as EVO
+
+        log = []
+
+        class LF:
+            def set_alignment(self, aln):
+                log.append("alignment")
+
+            def get_param_rules(self):
+                return [dict(par_name="kappa", init=1.0)]
+
+            def apply_param_rules(self, rules):
+                log.append("user_rules" if any(r.get("marker") for r in rules) else "default_rules")
+
+            def optimise(self, **kw):
+                log.append("optimise")
+
+            def set_time_heterogeneity(self, **kw):
+                log.append("time_het")
+
+        class SM:
+            def make_likelihood_function(self, tree, **kw):
+                return LF()
+
+        m = object.__new__(EVO.model)
+        m._sm, m._tree, m._lf_args, m._lower, m._upper = SM(), None, {}, 1e-6, 1e6
+        m._param_rules = [dict(par_name="kappa", edges=["a"], marker=True)] if has_rules else None
+        m._time_het = [None, "max", [dict(edges=["a", "b"])]][time_het]
+        m._opt_args, m._verbose = {}, False
+
+        def init(lf, identifier):
+            log.append("init")
+            return lf
+
+        m._configure_lf("aln", "id", initialise=init if has_init else None)
+        if not W.reach("end"):
+            return False
+        if has_init:
+            if not W.reach("init"):
+                return False
+            if log[-1] != "init":
+                return False  # something was applied after the alternate had been initialised from the null
+            if has_rules and "user_rules" not in log[: log.index("init")]:
+                return False
+            if time_het and "time_het" not in log[: log.index("init")]:
+                return False
+        if has_rules and "user_rules" not in log:
+            return False
+        return log[0] == "alignment" and "default_rules" in log
+
+    return check
+
+
 ENCODED = [
+    ("src/cogent3/app/evo.py", ["model._configure_lf", "_config_rules"]),
     ("src/cogent3/evolve/likelihood_function.py", ["_get_param_mapping", "_ParamProjection.__init__", "_ParamProjection._set_ref_val", "_ParamProjection._rate_same", "_ParamProjection._rate_not_same", "update_scoped_rules", "update_rule_value", "extend_rule_value", "_get_keyed_rule_indices", "_ParamProjection.update_param_rules"]),
     ("src/cogent3/evolve/substitution_model.py", ["get_param_matrix_coords", "get_reference_cell", "calcQ (both classes)", "Parametric.calc_exchangeability_matrix"]),
     ("src/cogent3/maths/optimisers.py", ["maximise", "limited_use", "bounded_function", "bounds_exception_catching_function"]),
@@ -280,6 +348,7 @@ def obligations(tier):
             obs.append(Ob(f"projection/{s}->{r}/const-all", __name__, "mk_projection", {"simple": s, "rich": r, "const": "all"}, kind="direct", timeout=1200, group="projection"))
     for sc in SCENARIOS:
         obs.append(Ob(f"wrapper/{sc}", __name__, "mk_wrapper", {"scenario": sc}, kind="direct", timeout=900, group="wrapper"))
+    obs.append(Ob("configure_order", __name__, "mk_configure_order", {}, kind="crosshair", timeout=600, twins=("end", "init"), group="app"))
     return obs
 
 
